@@ -38,11 +38,11 @@ NodeCfg(mode, p, f, kp, pf) ==
 
 SmallStruct == << StructCfg(Ctl(2, 3, 4)), StructCfg(Ctl(3, 2, 5)), StructCfg(Ctl(1, 4, 3)),
                   StructCfg(Ctl(2, 2, TOP - 1)), StructCfg(Ctl(1, 1, 2)) >>
-LargeStruct == << StructCfg(Ctl(3, 4, 6)), StructCfg(Ctl(2, 5, 5)), StructCfg(Ctl(5, 3, 7)),
+LargeStruct == << StructCfg(Ctl(3, 3, 5)), StructCfg(Ctl(2, 5, 4)), StructCfg(Ctl(4, 2, 6)),
                   StructCfg(Ctl(3, 3, TOP - 2)) >>
 NodeSets == IF Size = "large"
-            THEN << <<"pay", Ctl(2, 4, 4), Unl(2, 4)>>, <<"pay", Ctl(3, 3, 3), Ctl(3, 3, 50)>>,
-                    <<"fee", Unl(2, 4), Ctl(2, 4, 4)>>, <<"fee", Ctl(3, 3, 50), Ctl(3, 3, 3)>>,
+            THEN << <<"pay", Ctl(2, 4, 3), Unl(2, 4)>>, <<"pay", Ctl(3, 3, 3), Ctl(3, 3, 50)>>,
+                    <<"fee", Unl(2, 4), Ctl(2, 4, 3)>>,
                     <<"mixed", Ctl(2, 3, 3), Ctl(2, 3, 2)>>, <<"mixed", Ctl(1, 4, 2), Ctl(2, 2, 2)>> >>
             ELSE << <<"pay", Ctl(2, 3, 3), Unl(2, 3)>>, <<"fee", Unl(2, 3), Ctl(2, 3, 3)>>,
                     <<"mixed", Ctl(2, 3, 2), Ctl(2, 3, 2)>> >>
